@@ -72,7 +72,7 @@ class Case final : public sim::CaseBase {
         rd.yield_in_cs = g.Flip();
         rd.gap = static_cast<int>(g.Draw(3));
         rd.guard_origin = (rd.lock == kGuard || rd.lock == kTryGuard) ? static_cast<int>(g.Draw(3)) : 0;
-        rd.guard_moves = (rd.lock == kGuard || rd.lock == kTryGuard) && g.Draw(3) == 2 ? 1 + static_cast<int>(g.Draw(3)) : 0;
+        rd.guard_moves = (rd.lock == kGuard || rd.lock == kTryGuard) && g.Draw(3) == 2 ? 1 + static_cast<int>(g.Draw(4)) : 0;
         rs.push_back(rd);
       }
       rounds.push_back(rs);
@@ -92,7 +92,7 @@ class Case final : public sim::CaseBase {
         if (r.lock == kGuard || r.lock == kTryGuard) {
           j.KV("guard_made_by", origins[r.guard_origin]);
           static const char* moves[] = {"", "guard.Release(), then unlock through the mutex", "moved into a second guard (move constructor)",
-                                        "swapped into an empty guard (Swap)"};
+                                        "swapped into an empty guard (Swap)", "released by move-assigning an empty guard into it (guard = {})"};
           if (r.guard_moves != 0) {
             j.KV("before_release", moves[r.guard_moves]);
           }
@@ -318,6 +318,14 @@ yaclib::Future<> Worker(Case* c, M* m, int w, yaclib::IExecutor* e, yaclib::IExe
         }
         if (!g) {
           r.try_failed = true;
+          if (r.guard_moves == 2) {
+            // a refused try leaves a guard that does not own the lock: moving it around must not make anything own (and later release) it
+            SIM_PROBE("not_owning_guard_moved");
+            yaclib::UniqueGuard<M> moved{std::move(g)};
+            if (moved.OwnsLock() || g.OwnsLock()) {
+              sim::Fail("GUARD_NOT_OWNING", "after move-constructing from a guard that does not own the lock, one of the two guards claims to own it");
+            }
+          }
           if (r.lock == kGuard) {
             sim::Fail("GUARD_NOT_OWNING", "co_await Guard() returned a guard that does not own the lock");
           }
@@ -326,6 +334,15 @@ yaclib::Future<> Worker(Case* c, M* m, int w, yaclib::IExecutor* e, yaclib::IExe
         CRITICAL_SECTION();
         yaclib::UniqueGuard<M> g2;
         yaclib::UniqueGuard<M>* use = &g;
+        if (r.guard_moves == 4) {
+          // move-assignment swaps: the lock goes to the temporary, whose destructor releases it
+          SIM_PROBE("guard_released_by_assignment");
+          g = yaclib::UniqueGuard<M>{};
+          if (g.OwnsLock()) {
+            sim::Fail("GUARD_NOT_OWNING", "a guard still owns the lock after an empty guard was move-assigned into it");
+          }
+          break;
+        }
         if (r.guard_moves == 1) {
           SIM_PROBE("guard_released_by_hand");
           M* released = g.Release();
